@@ -1,4 +1,5 @@
 import BddProofs.Bracket
+import BddProofs.BracketText
 import BddProofs.Dot
 import BddProofs.SubFn
 import BddProofs.IteConst
@@ -56,9 +57,18 @@ example : Good s4 ∧ (∀ r, r ∈ [Ref.one, Ref.zero] → Live s4 r.idx) := by
   simp at hr
   rcases hr with rfl | rfl <;> exact Or.inl rfl
 
+/-- the bracket *text* determines the structured value: re-reading `render t` gives `t` back -/
+theorem C16_bracket_text_faithful (t : BTree) : parseBracket t.render = some t := parseBracket_render t
+
+/-- hence two bracket trees with the same text are equal -/
+theorem C16_bracket_text_injective {t₁ t₂ : BTree} (h : t₁.render = t₂.render) : t₁ = t₂ :=
+  BTree.render_injective h
+
 end P
 #print axioms P.C16_bracket_faithful
 #print axioms P.C16_dot_faithful
 #print axioms P.C16_dot_total
 #print axioms P.C16_size_pure
 #print axioms P.C16_ite_constant_pure
+#print axioms P.C16_bracket_text_faithful
+#print axioms P.C16_bracket_text_injective
